@@ -47,7 +47,7 @@ def gen(rng, tier):
                 t = rng.choice(voc + [vocab + 5])
                 unaligned = (lo is not None and lo % 18 != 0) or (hi is not None and hi % 18 != 17)
                 # an unknown term returns zeros before the bounds are looked at: outside the property's domain
-                (xs if (t not in voc and unaligned) else qs).append(["tfr", t, lo, hi])
+                (xs if (not any(t in d for d in docs) and unaligned) else qs).append(["tfr", t, lo, hi])
             else:
                 L = rng.randint(2, 4)
                 ph = [rng.choice(voc) for _ in range(L)]
